@@ -342,6 +342,10 @@ def run(rep, tier, root=None):
             d = diam[0]
             want_d = Rat.atom(Fn("getitem", (xi, Rat.atom(Fn("argmin", (Rat.atom(Fn("abs", (yi - Rat.sym("fraction"),))), None))))))
             check_equal(rep, "B5.diameter", k.fq + ": diameter = xi[argmin |ee - fraction|]", d, want_d, k.where(), what="encircled-energy diameter")
+    from ..common import purity_obligations
+    purity_obligations(rep, ix, [f for f in ix.module(INT).funcs.values() if not f.name.startswith("_")] +
+                       [f for f in ix.module(PSF).funcs.values() if not f.name.startswith("_")],
+                       "B6.pure", "binning / zooming / reducing the same array again would give a different result")
     rep.floor("C16 obligations", len(rep.obligations), 20)
 
 
